@@ -30,6 +30,8 @@ CTX_NAMES = [None, 'FP64', 'FP32', 'FP16', 'RTZ16', 'RTP16', 'RTN32', 'RAZ8', 'M
 FLOAT_CTXS = ['FP64', 'FP32', 'FP16', 'RTZ16', 'RTP16', 'RTN32', 'RAZ8', 'MP5', 'MP40']
 FIXED_CTXS = ['FX4', 'FXM', 'FXF']
 OTHER_CTXS = [None, 'REAL', 'FP64']
+# contexts ordered by how fine their grid is near 1
+RESOLUTION = ['RAZ8', 'MP5', 'FX4', 'FP16', 'RTZ16', 'RTP16', 'FXM', 'FP32', 'RTN32', 'FXF', 'MP40', 'FP64', None, 'REAL']
 HOT = frozenset(['eval', 'compile', '_compile', 'to_value', 'from_value', '_mpfr_call_with_prec', '__iter__', 'mpfr_call',
                  '_visit_context', '_normalize', 'register', '_func_ctx', '_call_fpy', '_eval_call', 'round',
                  '_default_function_call', 'make_namespace', '__call__'])
@@ -345,6 +347,26 @@ def gen_run(seed: int, tier: str, sub: str) -> dict:
             args = catalogue(sns, name, meta[sns]['SIG'][name])[r.randrange(4)]
             for cname in r.sample(CTX_NAMES, 2):
                 call_pool.append((sns, name, args, cname))
+    elif shape == 'sweep' and slot == 0:
+        # context ladder: every function that computes under the caller's context, the same arguments,
+        # under a ladder of contexts walked from coarse to fine (or fine to coarse, or shuffled):
+        # whatever a call leaves behind for "the same value under a similar context" is met by the next rung
+        cfg['nthreads'] = nthreads = r.choice([1, 1, 2])
+        cfg['mean_quantum'] = r.choice([40, 150, 600, 2500])
+        cfg['starve'] = 0.0
+        cfg['opcode'] = False
+        ctxs = r.sample(FLOAT_CTXS, 3) + r.sample(FIXED_CTXS, 2) + r.sample(OTHER_CTXS, 1)
+        ctxs = list(dict.fromkeys(ctxs))
+        order = rot % 4
+        if order == 3:
+            r.shuffle(ctxs)
+        else:
+            ctxs.sort(key=RESOLUTION.index, reverse=(order == 2))
+        cfg['ladder'] = ctxs
+        for name in m['BARE']:
+            args = catalogue('main', name, m['SIG'][name])[rot % 4]
+            for cname in ctxs:
+                call_pool.append(('main', name, args, cname))
     elif shape == 'sweep':
         # context sweep: one or two functions that compute under the caller's context, the same
         # arguments, several contexts -- "the same function under another context" as history
@@ -390,6 +412,18 @@ def gen_run(seed: int, tier: str, sub: str) -> dict:
             ns, name = r.choice(pool)
             call_pool.append((ns, name, catalogue(ns, name, meta[ns]['SIG'][name])[r.randrange(CATALOGUE)], r.choice(CTX_NAMES)))
     threads = []
+    if cfg.get('ladder'):
+        # every thread walks the same ladder of contexts, calling every function at each rung
+        for t in range(nthreads):
+            ops = []
+            for cname in cfg['ladder']:
+                rung = [c for c in call_pool if c[3] == cname]
+                rung = rung[t % len(rung):] + rung[:t % len(rung)]
+                for ns, name, cargs, cctx in rung:
+                    ops.append({'op': 'call', 'fn': [ns, name], 'key': {'root': [ns, name], 'chain': []},
+                                'args': cargs, 'ctx': cctx, 'rt': 'default' if (t + len(ops)) % 3 else 'own', 'cancel': None})
+            threads.append(ops)
+        return {'seed': seed, 'cfg': cfg, 'threads': threads, 'schedule': None, 'sched_seed': r.randrange(1 << 62)}
     for t in range(nthreads):
         ops = []
         derived = []      # (ref, key) usable by this thread
